@@ -53,10 +53,21 @@ def malformed_stream(rnd, tier, per_seed=10):
     non byte-aligned lengths, random strings"""
     cases = []
     T = tier == 'thorough'
-    nseed = 700 if T else 70
+    nseed = 800 if T else 80
+    CONFIGS = ALL_STACKS + ['CoAP-semantic']
     for i in range(nseed):
-        stack = ALL_STACKS[i % len(ALL_STACKS)]
-        pkt, st = rnd.choice(STACK_GENS[stack])(rnd)
+        stack = CONFIGS[i % len(CONFIGS)]
+        pkt, st = rnd.choice(STACK_GENS['CoAP' if stack == 'CoAP-semantic' else stack])(rnd)
+        if 'options' in st and st['options']:
+            # reserved nibbles: overwrite the first byte of an option with delta nibble 15 / length nibble 15 / both
+            off = len(pkt) - len(st['payload']) - (1 if st['payload'] else 0)
+            pos = off
+            for d, l, v in reversed(st['options']):
+                pos -= len(P.ext(d)[1]) + len(P.ext(l)[1]) + l + 1
+                if rnd.random() < 0.6:
+                    b_ = bytearray(pkt)
+                    b_[pos] = rnd.choice([0xF0 | (b_[pos] & 0x0F), (b_[pos] & 0xF0) | 0x0F, 0xF0 | rnd.randrange(15), 0xFE, 0xF1])
+                    cases.append((stack, b2s(bytes(b_)), 'reserved-nibble'))
         bits = b2s(pkt)
         cases.append((stack, bits, 'well-formed'))
         for t in (P.truncations(pkt, rnd, None if T and i % 10 == 0 else per_seed)):
@@ -74,7 +85,7 @@ def malformed_stream(rnd, tier, per_seed=10):
                 cases.append((stack, b2s(bytes(b)), 'length-field'))
         cases.append((stack, bits + randbits(rnd, rnd.randint(1, 7)), 'non-aligned'))
     for _ in range(3000 if T else 300):
-        stack = rnd.choice(ALL_STACKS)
+        stack = rnd.choice(ALL_STACKS + ['CoAP-semantic'])
         n = rnd.choice([rnd.randint(0, 64), rnd.randint(0, 400), rnd.randint(0, 2400)])
         s = randbits(rnd, n)
         if rnd.random() < 0.5 and n >= 4:
